@@ -113,6 +113,40 @@ def _inline_callable_aliases(tree):
     return count
 
 
+def fingerprint_of(fn_node):
+    """bag (sorted list, repetitions capped) of the attribute names, global names, constants and statement kinds a function body uses -
+    what stays when the function, its parameters or its locals are renamed (names bound inside the function are left out)"""
+    bound = set()
+    if isinstance(fn_node, (ast.FunctionDef, ast.AsyncFunctionDef)):
+        a = fn_node.args
+        bound |= {x.arg for x in a.posonlyargs + a.args + a.kwonlyargs}
+        if a.vararg:
+            bound.add(a.vararg.arg)
+        if a.kwarg:
+            bound.add(a.kwarg.arg)
+    for n in ast.walk(fn_node):
+        if isinstance(n, ast.Name) and isinstance(n.ctx, (ast.Store, ast.Del)):
+            bound.add(n.id)
+        elif isinstance(n, ast.ExceptHandler) and n.name:
+            bound.add(n.name)
+        elif isinstance(n, ast.arg):
+            bound.add(n.arg)
+    bag = {}
+    for n in ast.walk(fn_node):
+        t = None
+        if isinstance(n, ast.Attribute):
+            t = '.' + n.attr
+        elif isinstance(n, ast.Name):
+            t = n.id if n.id not in bound else None
+        elif isinstance(n, ast.Constant) and isinstance(n.value, (str, int, float)) and not isinstance(n.value, bool):
+            t = repr(n.value)[:40]
+        elif isinstance(n, (ast.If, ast.For, ast.While, ast.Return, ast.Raise, ast.Try, ast.With, ast.Assert, ast.Assign, ast.AugAssign, ast.Call, ast.Compare, ast.BoolOp)):
+            t = '#' + type(n).__name__
+        if t is not None:
+            bag[t] = min(bag.get(t, 0) + 1, 4)
+    return sorted('%s*%d' % kv for kv in bag.items())
+
+
 _CANON_VARS = None
 
 
@@ -409,9 +443,13 @@ class Repo:
                     for fn in sorted(fns):
                         if fn.endswith('.py') and fn != 'conftest.py':
                             paths.append(os.path.relpath(os.path.join(dp, fn), self.root))
+        def _is_prod(rel):
+            parts = rel.split(os.sep)
+            return rel.endswith('.py') and (rel in PROD_ROOTS or parts[0] in PROD_ROOTS) and 'test' not in parts[:-1] and parts[-1] != 'conftest.py'
         for rel in set(self.overlay) - set(paths):
-            if rel.endswith('.py'):
-                paths.append(rel)
+            if self.overlay[rel] is not None and _is_prod(rel):
+                paths.append(rel)           # a file the overlay creates (or moves here)
+        paths = [rel for rel in paths if not (rel in self.overlay and self.overlay[rel] is None)]     # .. deletes (or moves away)
         if not paths:
             raise AnalysisError('no production modules found under ' + self.root)
         for rel in sorted(paths):
@@ -427,6 +465,9 @@ class Repo:
             m = Module(name, rel, src, is_pkg)
             self.modules[name] = m
             self.by_relpath[rel] = m
+        # identifiers that were merely renamed are mapped back to their pinned names before any table is built (sa/rename.py)
+        from . import rename as _rename
+        self.renames = _rename.canonicalise(self.modules, fingerprint_of)
         for m in self.modules.values():
             m.body_func = FuncInfo(self, m, m.tree, None, None)
             m.body_func.qual = m.name + '.<module>'
@@ -439,6 +480,37 @@ class Repo:
                 self._register_class(c)
             for f in m.functions.values():
                 self.funcs[f.qual] = f
+        # a function / method / class that moved to another module keeps its pinned qualified name (every table, predicate and report
+        # that goes by `qual` then sees the pinned identity; `module` stays the module it lives in now, for name resolution and locations)
+        def requalify(f, new_qual):
+            for k in [k for k, v in self.funcs.items() if v is f]:
+                del self.funcs[k]
+            f.qual = new_qual
+            f.canon_qual = new_qual
+            self.funcs[new_qual] = f
+        for old_qual, (mn, cn, fname) in getattr(_rename.canonicalise, 'moved', {}).items():
+            mm = self.modules.get(mn)
+            if mm is None or old_qual in self.funcs:
+                continue
+            target = None
+            if cn is None:
+                target = mm.functions.get(fname)
+            elif cn in mm.classes:
+                target = mm.classes[cn].methods.get(fname)
+            if target is not None:
+                requalify(target, old_qual)
+        for old_qual, (mn, cname) in getattr(_rename.canonicalise, 'moved_classes', {}).items():
+            mm = self.modules.get(mn)
+            if mm is None or cname not in mm.classes or old_qual in self.classes:
+                continue
+            c = mm.classes[cname]
+            for k in [k for k, v in self.classes.items() if v is c]:
+                del self.classes[k]
+            c.qual = old_qual
+            c.canon_qual = old_qual
+            self.classes[old_qual] = c
+            for mname_, f in c.methods.items():
+                requalify(f, '%s.%s' % (old_qual, mname_))
 
     def _collect_defs(self, m, body):
         for st in body:
@@ -473,7 +545,10 @@ class Repo:
         """Find a function by qualified name suffix, e.g. 'ConnectionImpl.create_object' or 'parse.message'."""
         if qual in self.funcs:
             return self.funcs[qual]
-        hits = [f for q, f in self.funcs.items() if q.endswith('.' + qual)]
+        hits = []
+        for q, f in self.funcs.items():
+            if q.endswith('.' + qual) and not any(h is f for h in hits):
+                hits.append(f)          # (a moved function is registered under its pinned and its present name)
         if len(hits) == 1:
             return hits[0]
         if not hits:
@@ -489,7 +564,10 @@ class Repo:
     def cls(self, qual):
         if qual in self.classes:
             return self.classes[qual]
-        hits = [c for q, c in self.classes.items() if q.endswith('.' + qual)]
+        hits = []
+        for q, c in self.classes.items():
+            if q.endswith('.' + qual) and not any(h is c for h in hits):
+                hits.append(c)
         if len(hits) == 1:
             return hits[0]
         if not hits:
